@@ -16,13 +16,28 @@ WHAT = {
 def run(c):
     c.rule = ("scripts: 1..3 channels, the first a future (guest holds the writable or the readable end, payload lowered without / with an "
               "owned list, scripted answer to a cancel race), the others futures or streams; body over {open, write(fresh value) / "
-              "into_future, poll, await, cancel, drop op, drop end, suspend, yield, + the stream instructions} and peer directives "
+              "into_future, poll, await, cancel, drop op, drop end, suspend, yield, move to the other task (cabi2), + the stream instructions} and peer directives "
               "{transfer, drop, deliver}; background default writes are completed by the peer after the body is gone; modes cabi1/cabi2 "
               "(exact trace equality) and export (spec side only); non-trivial = an operation blocked")
     chan_common.run_chan(c, "C20", "F", False, WHAT)
+    c.cov["partial_obligations"] = [
+        "`exactly one value`: proved are AT MOST one (reader_gets_value_at_most_once_peer/_guest, every reachable state) and `the writable "
+        "end is dropped only after COMPLETED or DROPPED, and is never stranded` (writer_never_dropped_unwritten, writer_never_stranded); "
+        "that a value IS eventually delivered needs a fairness assumption on the host / the body (liveness) and is not stated",
+        "the real export executor is not modelled: its traces are judged by the monitors only; on them the run reproduces the known "
+        "finding future-default-write-stranded-on-task-cancel",
+        "RawFutureWriter (no default value) is outside the statements; one component task in the theorems (cabi2 scripts do move "
+        "operations between two tasks on the real code)",
+    ]
     c.assumptions += [
         "typed API (FutureWriter / FutureWrite / FutureReader); RawFutureWriter (no default) is modelled only as the building block",
         "a future's writer cannot be dropped by the peer before it wrote (so a guest reader never sees DROPPED): the host rule of Appendix B",
         "host rules are the Appendix-B transcription in Async/Host.lean (`Host.End`)",
+        "cabi2 scripts move the body between two harness tasks while operations are registered; v1 (cabi1) moves are C18's known finding "
+        "waitable-v1-cross-task and are not generated here",
+        "a failure is filed under future-default-write-stranded-on-task-cancel only if its clause AND its position match (end-of-trace "
+        "clause of a channel whose default write started after EVENT_CANCEL and blocked, the dangling registration of that channel's "
+        "writable handle, the ledger entry of that default value, host leftovers = one end per such channel, the byte leak); the trace "
+        "before a host trap / the start of a panic is judged as a prefix",
         "native x86-64; export-mode traces are checked against the spec side only (executor model: C22)",
     ]
